@@ -100,8 +100,8 @@ POOL = {
     "TRAJ": ["TRAJ43", "aj43*1", "TCRAJ28*01", "unknown", None, "TRAJ1*01"],
     "TRBV": ["TRBV9*01", "bv13*1", "TCRBV28S1*01", "TRBV7-2*01", "TRBV1*01", "junk!", None, "trbv7-2"],
     "TRBJ": ["TRBJ2-4*01", "bj1.5*1", "TCRBJ2S6*01", None, "nope", "TRBJ2-2P*01"],
-    "CDR3A": ["CIVRAPGRADMRF", "CAVPSGAGSYQLTF", "unknown", "ASSF", "casf", "CAS1F", None, ""],
-    "CDR3B": ["CASSYLPGQGDHYSNQPQHF", "CASSLGQSGANVLTF", "ASSLGQ", "cassf", None, "CAS F", "CASSDWGSQNTLYF"],
+    "CDR3A": ["CIVRAPGRADMRF", "CAVPSGAGSYQLTF", "unknown", "ASSF", "casf", "CAS1F", None, "", "CASSC", "C"],
+    "CDR3B": ["CASSYLPGQGDHYSNQPQHF", "CASSLGQSGANVLTF", "ASSLGQ", "cassf", None, "CAS F", "CASSDWGSQNTLYF", "CAVC", "CC", "CASSW"],
     "Epitope": ["FLKEKGGL", "LQPFPQPELPYPQPQ", "not an epitope!", "gilgfvftl", None, "YMPYFFTLL"],
     "MHCA": ["b8", "HLA-DQA1*05", "HLA-A*02", "HLA-A*02:01:01", "junk", None, "H2-Kb"],
     "MHCB": ["b2m", "HLA-DQB1*02", "B2M", None, "zzz"],
@@ -343,6 +343,7 @@ WIT_ROWS = [
     ["unknown", "unknown", "unknown", "TRBV7-2*01", "CASSDWGSQNTLYF", "TRBJ2-4*01", "YMPYFFTLL", "HLA-A*02", "B2M", 3, "z"],
     [None, "ASSF", None, "TRBV1*01", None, None, "not an epitope!", None, "zzz", 4, "w"],
     ["TRAV1-1*01", "casf", "TRAJ1*01", "TRBV9*01", "ASSLGQ", "TRBJ2-2P*01", None, "HLA-A*02:01:01", None, 5, ""],
+    ["TRAV8-5*01", "CASSC", "TRAJ51*01", "TRBV17*01", "C", "TRBJ2-7*02", "GILGFVFTL", "H2-Kb", "B2M", 6, "v"],
 ]
 
 
